@@ -1,3 +1,215 @@
-LEVEL = 'other'
-EXPLANATION = 'C10 (partial: under construction)'
-EXTRA = []
+"""C10 - results depend only on the arguments: deterministic, isolated, non-mutating."""
+import time
+
+from contracts.integrate_rt import rt_integrate  # noqa: F401  (run-time check of the loop contract, bounded)
+
+LEVEL = 'proof'
+EXPLANATION = ('Frame conditions (modifies clauses, checked on every path incl. exceptional exits) on every function between the '
+               'public API and the integrator: _integrate, zero_angle, trajectory, Calculator.fire / barrel_elevation_for_target '
+               'modify nothing of shot, weapon, ammunition, atmosphere, winds or drag table (only the calculator\'s own scratch '
+               'fields and display-unit bookkeeping, never a magnitude: C13); set_weapon_zero writes weapon.zero_elevation and '
+               'nothing else, and only on normal return. _init_trajectory history harnesses (init_once, init_twice, '
+               'init_edit_init): every field the integrator reads is re-derived from the current shot, so a long-used calculator '
+               'computes what a fresh one does, also after a run for another shot. Shot.winds returns a sorted COPY (the given '
+               'list is not re-ordered). TrajectoryCalc.__init__ keeps its own configuration. Atmosphere cache harness '
+               '(query_set_humidity_query). Isolation between calculators and threads: exhaustive ast scan - every write to '
+               'module-level or class-level state in the package (global statements, stores through class objects, setattr on '
+               'classes, mutating calls on module-level names) sits in one of the documented configuration setters, and none '
+               'of those is reachable in an over-approximated (name-based) call graph from Calculator.* / TrajectoryCalc.*; '
+               'no random / time / id / hash-order source is reachable either. Hence a computation reads shared state only, '
+               'and two calculators never write to a common object unless the caller passes the same Shot to both.')
+TEXT = ('frames and history harnesses are proved; "bit-identical under threads" follows from the no-shared-writes scan + '
+        'determinism of CPython float arithmetic (A-PY) and is additionally exercised by a bounded threaded run')
+NOT_DECIDED = ['thread interleavings themselves are not modelled (no contract-level concurrency): the argument is absence of '
+               'shared writes (scan) - a bounded run with 4 threads stands in',
+               'the zero-finding loop re-uses self.barrel_elevation as scratch: two threads sharing ONE calculator are outside '
+               'the property (it speaks of several calculators)']
+EXTRA_ASSUMPTIONS = ['the name-based call graph over-approximates dynamic dispatch inside the package (getattr/eval are absent '
+                     'from the compute path: scanned)', 'CPython float arithmetic and libm are deterministic (A-PY, A-LIBM)']
+EXTRA = ['scan_shared_state', 'bounded_threads_and_interleaving', 'rt_integrate']
+
+_MUT = {'append', 'extend', 'update', 'pop', 'clear', 'sort', 'insert', 'remove', 'setdefault', 'popitem', 'add', 'discard',
+        'reverse'}
+# the documented configuration setters: the only places allowed to write shared state
+_SETTERS = {('py_ballisticcalc/logger.py', 'enable_file_logging'), ('py_ballisticcalc/logger.py', 'disable_file_logging'),
+            ('py_ballisticcalc/logger.py', 'set_debug'), ('py_ballisticcalc/trajectory_calc/__init__.py', 'reset_globals'),
+            ('py_ballisticcalc/trajectory_calc/__init__.py', 'set_global_max_calc_step_size'),
+            ('py_ballisticcalc/unit.py', 'PreferredUnits.defaults'), ('py_ballisticcalc/unit.py', 'PreferredUnits.set')}
+_NONDET = {'random', 'time', 'perf_counter', 'monotonic', 'urandom', 'uuid4', 'getrandbits', 'id', 'now', 'today', 'getpid'}
+
+
+def _functions():
+    import ast
+    from pyvc.scan import package_files
+    funcs = {}
+    for rel, p in package_files():
+        tree = ast.parse(open(p, encoding='utf-8').read())
+
+        def rec(node, stack):
+            for ch in ast.iter_child_nodes(node):
+                if isinstance(ch, (ast.FunctionDef, ast.AsyncFunctionDef)):
+                    funcs[(rel, '.'.join(stack + [ch.name]))] = ch
+                    rec(ch, stack + [ch.name])
+                elif isinstance(ch, ast.ClassDef):
+                    rec(ch, stack + [ch.name])
+                else:
+                    rec(ch, stack)
+        rec(tree, [])
+    return funcs
+
+
+def _shared_writes(fn):
+    import ast
+    loc = set(a.arg for a in fn.args.posonlyargs + fn.args.args + fn.args.kwonlyargs)
+    if fn.args.vararg:
+        loc.add(fn.args.vararg.arg)
+    if fn.args.kwarg:
+        loc.add(fn.args.kwarg.arg)
+    glob = set()
+    for e in ast.walk(fn):
+        if isinstance(e, ast.Global):
+            glob.update(e.names)
+    for e in ast.walk(fn):
+        if isinstance(e, ast.Name) and isinstance(e.ctx, ast.Store) and e.id not in glob:
+            loc.add(e.id)
+
+    def base(e):
+        while isinstance(e, (ast.Attribute, ast.Subscript)):
+            e = e.value
+        return e
+    hits = []
+    for e in ast.walk(fn):
+        if isinstance(e, ast.Name) and isinstance(e.ctx, (ast.Store, ast.Del)) and e.id in glob:
+            hits.append((e.lineno, f'global {e.id} written'))
+        if isinstance(e, (ast.Attribute, ast.Subscript)) and isinstance(e.ctx, (ast.Store, ast.Del)):
+            b = base(e)
+            if isinstance(b, ast.Name) and (b.id not in loc or b.id == 'cls'):
+                hits.append((e.lineno, 'store ' + ast.unparse(e)))
+        if isinstance(e, ast.Call) and isinstance(e.func, ast.Attribute) and e.func.attr in _MUT:
+            b = base(e.func.value)
+            if isinstance(b, ast.Name) and b.id not in loc:
+                hits.append((e.lineno, 'mutating call ' + ast.unparse(e)[:80]))
+        if isinstance(e, ast.Call) and ast.unparse(e.func) in ('setattr', 'delattr', 'object.__setattr__') and e.args:
+            b = base(e.args[0])
+            if isinstance(b, ast.Name) and (b.id not in loc or b.id == 'cls'):
+                hits.append((e.lineno, 'setattr ' + ast.unparse(e)[:80]))
+    return hits
+
+
+def _callees(fn):
+    """names a function may call or reach: every called name, every attribute name (properties, methods passed as
+    values), every loaded name, and the dunder methods behind operators - an over-approximation by simple name"""
+    import ast
+    out = set()
+    for e in ast.walk(fn):
+        if isinstance(e, ast.Attribute):
+            out.add(e.attr)
+        if isinstance(e, ast.Name):
+            out.add(e.id)
+    out.update({'__init__', '__post_init__', '__new__', '__repr__', '__str__', '__format__', '__hash__', '__bool__', '__float__',
+                '__len__', '__iter__', '__next__', '__enter__', '__exit__', '__call__', '__getattr__', '__setattr__', '__get__',
+                '__set__', '__set_name__', '__add__', '__sub__', '__mul__', '__truediv__', '__rshift__', '__lshift__',
+                '__radd__', '__rmul__', '__rsub__', '__rtruediv__', '__floordiv__', '__mod__', '__pow__', '__eq__', '__lt__',
+                '__gt__', '__le__', '__ge__', '__ne__', '__contains__', '__neg__', '__pos__', '__abs__', '__getitem__',
+                '__setitem__', '__iadd__', '__isub__', '__imul__', '__itruediv__', '__rlshift__', '__rrshift__'})
+    return out
+
+
+def scan_shared_state(tier, seed):
+    import ast
+    from pyvc.scan import result, obl
+    t0 = time.time()
+    funcs = _functions()
+    byname = {}
+    for (rel, q) in funcs:
+        byname.setdefault(q.split('.')[-1], []).append((rel, q))
+    entries = [k for k in funcs if (k[0].endswith('interface.py') and k[1].startswith('Calculator.'))
+               or k[1].startswith('TrajectoryCalc.')]
+    seen = set(entries)
+    work = list(entries)
+    while work:
+        k = work.pop()
+        for nm in _callees(funcs[k]):
+            for k2 in byname.get(nm, []):
+                if k2 not in seen:
+                    seen.add(k2)
+                    work.append(k2)
+    obls = []
+    writers = 0
+    for (rel, q), fn in sorted(funcs.items()):
+        for line, what in _shared_writes(fn):
+            writers += 1
+            in_setter = (rel, q) in _SETTERS
+            obls.append(obl(f'scan::shared-write@{rel}:{q}:L{line}', in_setter,
+                            f'{what} in {q}: shared (module/class-level) state is written only by the documented '
+                            f'configuration setters', kind='frame', line=line))
+    for (rel, q) in sorted(_SETTERS):
+        present = (rel, q) in funcs
+        obls.append(obl(f'scan::setter-not-on-compute-path@{rel}:{q}', present and (rel, q) not in seen,
+                        f'{q} is not reachable (name-based over-approximated call graph, {len(seen)} of {len(funcs)} functions '
+                        f'reachable) from Calculator.* / TrajectoryCalc.*' + ('' if present else ' [setter not found: scan stale]'),
+                        kind='frame'))
+    # nondeterminism sources on the compute path
+    for (rel, q) in sorted(seen):
+        for e in ast.walk(funcs[(rel, q)]):
+            if isinstance(e, ast.Call):
+                f = e.func
+                nm = f.attr if isinstance(f, ast.Attribute) else (f.id if isinstance(f, ast.Name) else None)
+                if nm in _NONDET:
+                    obls.append(obl(f'scan::nondeterminism@{rel}:{q}:L{e.lineno}', False,
+                                    f'{ast.unparse(e)[:60]} on the compute path', kind='dep', line=e.lineno))
+    obls.append(obl('scan::compute-path-is-not-empty', len(seen) > 80 and len(entries) >= 8 and writers >= 10,
+                    f'{len(entries)} entry points, {len(seen)} reachable functions, {writers} shared-state writes classified '
+                    f'(vacuity guard)', kind='frame'))
+    return result('scan:shared-state', obls, t0, props=('C10',))
+
+
+def bounded_threads_and_interleaving(tier, seed):
+    """bit-identical rows: repeated, interleaved with other shots (one of which raises), long-used vs fresh calculator,
+    4 threads with their own calculators"""
+    import threading
+    from pyvc.bounded import pkg, mk
+    from pyvc.scan import result
+    P = pkg()
+    t0 = time.time()
+
+    def shot(k):
+        return P.Shot(P.Weapon(P.Unit.Inch(2), P.Unit.Inch(10 + k), P.Unit.Mil(1 + k)),
+                      P.Ammo(P.DragModel(0.2 + 0.05 * k, P.TableG7, P.Unit.Grain(150), P.Unit.Inch(0.308), P.Unit.Inch(1.2)),
+                             P.Unit.FPS(2500 + 100 * k)),
+                      look_angle=P.Unit.Degree(k), winds=[P.Wind(P.Unit.MPH(5 + k), P.Unit.Degree(40 * k), P.Unit.Yard(150)),
+                                                          P.Wind(P.Unit.MPH(2), P.Unit.Degree(270))])
+
+    def rows(calc, s):
+        tr = calc.fire(s, P.Unit.Yard(400), P.Unit.Yard(50), extra_data=True).trajectory
+        return [tuple(float(getattr(r, f).raw_value) if hasattr(getattr(r, f), 'raw_value') else getattr(r, f)
+                      for f in r._fields) for r in tr]
+    bad = None
+    ref = [rows(P.Calculator(), shot(k)) for k in range(4)]
+    used = P.Calculator()
+    for k in (2, 0, 3):
+        rows(used, shot(k))
+    try:
+        used.fire(P.Shot(P.Weapon(2, 12), P.Ammo(P.DragModel(0.05, P.TableG1), P.Unit.FPS(300))), P.Unit.Yard(3000), P.Unit.Yard(100))
+    except P.RangeError:
+        pass
+    for k in range(4):
+        if rows(used, shot(k)) != ref[k] or rows(used, shot(k)) != ref[k]:
+            bad = f'long-used calculator differs from a fresh one on shot {k}'
+    out = {}
+
+    def work(k):
+        c = P.Calculator()
+        for _ in range(3):
+            out[k] = rows(c, shot(k))
+    ths = [threading.Thread(target=work, args=(k,)) for k in range(4)]
+    for t in ths:
+        t.start()
+    for t in ths:
+        t.join()
+    for k in range(4):
+        if out.get(k) != ref[k]:
+            bad = f'thread {k} result differs from the serial one'
+    return result('bounded:threads', [mk('repeat-interleave-fresh-vs-used-threads-bit-identical', bad is None,
+                  '4 shots: fresh vs long-used calculator (after other shots and a RangeError), repeated, and 4 threads x 3 '
+                  'runs with own calculators: all rows bit-identical', 4 * 6, t0, bad)], t0, props=('C10',))
